@@ -110,11 +110,12 @@ Proof. exact module_content_roundtrip. Qed.
 (* the dir stream: for every project description whose fields fit their size fields, written
    record by record as MS-OVBA 2.3.4.2 prescribes (optional PROJECTCOMPATVERSION; references of
    the three kinds, each WITH OR WITHOUT its optional NameRecord (2.3.4.2.2.1), REFERENCECONTROL
-   with or without REFERENCEORIGINAL and extended name; modules with optional read-only /
-   private records), the three passes of vba.rs return the code page, the references with their
+   with or without REFERENCEORIGINAL and extended name; modules WITH OR WITHOUT their optional
+   MODULENAMEUNICODE record (2.3.4.2.3.2; [ms_name_u m = None] = not written) and with optional
+   read-only / private records), the three passes of vba.rs return the code page, the references with their
    names (description and path as the libid texts say; a reference without NameRecord is listed
-   with the empty name) and the modules with name, stream name and text offset — for every
-   code-page decoder.  No class of descriptions is excepted (the former known class 1, a
+   with the empty name) and the modules with name (the MODULENAME text, whether or not the
+   Unicode twin is there), stream name and text offset — for every code-page decoder.  No class of descriptions is excepted (the former known class 1, a
    REFERENCE without NameRecord, was repaired in vba.rs). *)
 Theorem C18_dir_roundtrip :
   forall (decode : N -> list N -> list N) (p : proj) (refs : list reference),
@@ -123,6 +124,40 @@ Theorem C18_dir_roundtrip :
     parse_dir decode (encode_dir p)
     = Ok (p_codepage p, refs, map (expected_mod decode (p_codepage p)) (p_mods p)).
 Proof. exact dir_roundtrip. Qed.
+
+(* one MODULE record of the dir stream (MS-OVBA 2.3.4.2.3.2: MODULENAME [MODULENAMEUNICODE]
+   MODULESTREAMNAME MODULEDOCSTRING MODULEOFFSET MODULEHELPCONTEXT MODULECOOKIE MODULETYPE
+   [MODULEREADONLY] [MODULEPRIVATE] Terminator): for every module description whose fields fit
+   their size fields — [ms_name_u m] is [Some _] (the record 0x0047 is written) or [None] (it is
+   not) — and whatever follows it, read_modules' loop body returns the module with the decoded
+   MODULENAME text, the decoded stream name and the text offset, and stops exactly behind the
+   record *)
+Theorem C18_module_record_roundtrip :
+  forall (decode : N -> list N -> list N) (cp : N) (m : mod_spec) (rest : list N),
+    valid_modb m = true ->
+    read_module decode cp (enc_mod m ++ rest) = Ok (expected_mod decode cp m, rest).
+Proof. exact read_module_enc. Qed.
+(* non-vacuity: the same module written without and with the MODULENAMEUNICODE record (the two
+   streams differ by exactly the 8 bytes of that record) reads as the same module; the two
+   short-stream edges of the [starts_with] test; a dir stream whose only module lacks it *)
+Example C18_module_without_name_unicode_nonvacuous :
+  valid_modb ex_mod_plain = true /\ valid_modb ex_mod_uni = true /\
+  ms_name_u ex_mod_plain = None /\ ms_name_u ex_mod_uni = Some [77; 0] /\
+  firstn 14 (enc_mod ex_mod_plain) = [25; 0; 1; 0; 0; 0; 77; 26; 0; 1; 0; 0; 0; 83] /\
+  firstn 22 (enc_mod ex_mod_uni)
+  = [25; 0; 1; 0; 0; 0; 77; 71; 0; 2; 0; 0; 0; 77; 0; 26; 0; 1; 0; 0; 0; 83] /\
+  skipn 7 (enc_mod ex_mod_plain) = skipn 15 (enc_mod ex_mod_uni) /\
+  read_module dec_id 1252 (enc_mod ex_mod_plain ++ [9]) = Ok (mkmod [77] [83] 5, [9]) /\
+  read_module dec_id 1252 (enc_mod ex_mod_uni ++ [9]) = Ok (mkmod [77] [83] 5, [9]) /\
+  read_module dec_id 1252 [25; 0; 1; 0; 0; 0; 77; 71] = Err E_IO /\
+  read_module dec_id 1252 [25; 0; 1; 0; 0; 0; 77; 71; 1; 0; 0; 0; 0] = Err E_RECORD_ID /\
+  parse_dir dec_id (encode_dir (mkproj 1 None 1033 1033 1252 [86] [] [] [] [] 0 0 1 2 [] [] []
+                                  [ex_mod_plain] 0))
+  = Ok (1252, [], [mkmod [77] [83] 5]).
+Proof.
+  destruct module_without_name_unicode_reads as (H1 & H2 & H3).
+  split; [exact H1|]. split; [exact H2|]. split; [reflexivity|]. split; [reflexivity|]. exact H3.
+Qed.
 
 (* the whole project: dir stream under ANY valid compression, every module stream = any
    performance cache of [offset] bytes followed by ANY valid compression of its source:
@@ -232,14 +267,16 @@ Example C18_overlap_nonvacuous :
 Proof. exact example_overlap. Qed.
 
 (* a project with eight references: nameless ones first, in the middle, last and two in a row,
-   of all three kinds; a named one whose name is empty *)
+   of all three kinds; a named one whose name is empty; two modules, the first with and the
+   second WITHOUT the optional MODULENAMEUNICODE record *)
 Example C18_project_nonvacuous :
+  map ms_name_u (p_mods ex_proj) = [Some [77; 0; 49; 0]; None] /\
   valid_projb ex_proj = true /\
   (exists refs, expected_refs dec_id 1252 (p_refs ex_proj) = Some refs /\ length refs = 8%nat) /\
   Forall valid_chunk ex_dir_chunks /\ sem ex_dir_chunks = encode_dir ex_proj /\
   p_mods ex_proj = map fst ex_bodies /\ Forall body_ok ex_bodies /\
   NoDup (map fst (project_streams dec_id ex_proj ex_dir_chunks ex_bodies)).
-Proof. exact ex_project_valid. Qed.
+Proof. split; [reflexivity|exact ex_project_valid]. Qed.
 (* a decoder that is not the identity, distinct module names: the text is the decoding *)
 Example C18_module_text_nonvacuous :
   NoDup (map (fun mb => dec_shift 1252 (ms_name (fst mb))) ex_bodies) /\
@@ -281,6 +318,27 @@ Check C18_dir_roundtrip :
     expected_refs decode (p_codepage p) (p_refs p) = Some refs ->
     parse_dir decode (encode_dir p)
     = Ok (p_codepage p, refs, map (expected_mod decode (p_codepage p)) (p_mods p)).
+Check C18_module_record_roundtrip :
+  forall (decode : N -> list N -> list N) (cp : N) (m : mod_spec) (rest : list N),
+    valid_modb m = true ->
+    read_module decode cp (enc_mod m ++ rest) = Ok (expected_mod decode cp m, rest).
+(* the layout quantified over: the MODULENAMEUNICODE field of a module description is optional,
+   the encoder writes the record 0x0047 only when it is there, validity asks nothing of an
+   absent record *)
+Check ms_name_u : mod_spec -> option (list N).
+Check ((fun m => eq_refl) : forall m,
+  enc_mod m =
+  var_rec 0x0019 (ms_name m) ++
+  (match ms_name_u m with Some nu => var_rec 0x0047 nu | None => [] end) ++
+  var_rec 0x001A (ms_stream m) ++ var_rec 0x0032 (ms_stream_u m) ++
+  var_rec 0x001C (ms_doc m) ++ var_rec 0x0048 (ms_doc_u m) ++
+  le16 0x0031 ++ le32 4 ++ le32 (ms_offset m) ++
+  le16 0x001E ++ le32 4 ++ le32 (ms_helpctx m) ++
+  le16 0x002C ++ le32 2 ++ le16 (ms_cookie m) ++
+  le16 (if ms_document m then 0x0022 else 0x0021) ++ le32 0 ++
+  (if ms_readonly m then le16 0x0025 ++ le32 0 else []) ++
+  (if ms_private m then le16 0x0028 ++ le32 0 else []) ++
+  le16 0x002B ++ le32 0).
 
 Print Assumptions C18_decompress_inverts_encode.
 Print Assumptions C18_decompress_inverts_encode_fuel.
@@ -293,6 +351,7 @@ Print Assumptions C18_bit_count_is_msovba.
 Print Assumptions C18_overlap_copy_is_bytewise.
 Print Assumptions C18_module_from_offset.
 Print Assumptions C18_dir_roundtrip.
+Print Assumptions C18_module_record_roundtrip.
 Print Assumptions C18_vba_project_roundtrip.
 Print Assumptions C18_module_lookup.
 Print Assumptions C18_libid_split.
